@@ -9,7 +9,7 @@ pub mod c08 {
         ($name:ident, $t:ty) => {
             #[kani::proof]
             #[kani::unwind(12)]
-            fn $name() {
+            pub fn $name() {
                 let v: $t = kani::any();
                 let r: Rec<10> = Rec::of(&v);
                 let mut e: Exp<10> = Exp::new();
@@ -32,7 +32,7 @@ pub mod c08 {
     /// same numeric value => identical bytes whichever type carried it
     #[kani::proof]
     #[kani::unwind(12)]
-    fn q_cross_type_equal() {
+    pub fn q_cross_type_equal() {
         let v: u64 = kani::any();
         let r64: Rec<10> = Rec::of(&v);
         let rus: Rec<10> = Rec::of(&(v as usize));
@@ -58,7 +58,7 @@ pub mod c08 {
         ($name:ident, $n:expr, $cap:expr) => {
             #[kani::proof]
             #[kani::unwind($cap)]
-            fn $name() {
+            pub fn $name() {
                 let data: [u8; $n] = kani::any();
                 let b = acpi_tables::aml::BufferData::new(data.to_vec());
                 let r: Rec<{ $n + 10 }> = Rec::of(&b);
